@@ -25,6 +25,7 @@ import (
 	"path/filepath"
 	"regexp"
 	"runtime"
+	"runtime/debug"
 	"sort"
 	"strings"
 	"sync"
@@ -319,12 +320,29 @@ func c07Delete(c *vgChecked, res unused.Result) *c07Deletion {
 			return false
 		}
 		specs := gd.Specs[:0:0]
+		// A constant spec without expressions repeats the preceding expression list (and type)
+		// textually. Removing the object that happens to carry the list must not take the list
+		// away from the constants that repeat it: the list moves to the next spec that stays.
+		var carry *ast.ValueSpec
 		for _, sp := range gd.Specs {
 			if rmSpec[sp] {
 				continue
 			}
-			if vs, ok := sp.(*ast.ValueSpec); ok && filterValueSpec(vs) {
-				continue
+			if vs, ok := sp.(*ast.ValueSpec); ok {
+				explicit := len(vs.Values) > 0
+				if explicit {
+					carry = nil
+				}
+				if filterValueSpec(vs) {
+					if gd.Tok == token.CONST && explicit {
+						carry = vs
+					}
+					continue
+				}
+				if gd.Tok == token.CONST && !explicit && carry != nil && len(carry.Values) == len(vs.Names) {
+					vs.Type, vs.Values = carry.Type, carry.Values
+					carry = nil
+				}
 			}
 			specs = append(specs, sp)
 		}
@@ -478,7 +496,7 @@ type c07Case struct {
 
 type c07Stats struct {
 	pkgs, objects, unusedObjs, quietObjs, deletions, zeroCand, nontrivial atomic.Int64
-	typeErr                                                               atomic.Int64
+	typeErr, corpusPkgs                                                   atomic.Int64
 }
 
 func c07NontrivialSpec(s *vgSpec, res unused.Result) bool {
@@ -554,6 +572,26 @@ func c07RunSpec(res *vx.Result, st *c07Stats, s *vgSpec) {
 			continue
 		}
 		res.Violate("zeroref|"+m.Kind+"_"+m.Name+"|"+key, msg, c07Case{Spec: s, Source: src})
+	}
+	// supplement (DESIGN C07, rule 10.1): a generated iota group is reported as a whole or not at all;
+	// with the carried-over expression list a partial deletion would still type-check.
+	for i, o := range s.Objs {
+		if o.K != vkGroup {
+			continue
+		}
+		ra, rb := false, false
+		for _, u := range ur.Unused {
+			if u.Kind == "const" && u.Name == s.name(i) {
+				ra = true
+			}
+			if u.Kind == "const" && u.Name == s.grpB(i) {
+				rb = true
+			}
+		}
+		if ra != rb {
+			res.Violate("constgroup|"+key, fmt.Sprintf("constant group (%s, %s) is reported in part only (%s reported=%v, %s reported=%v)\n%s",
+				s.name(i), s.grpB(i), s.name(i), ra, s.grpB(i), rb, src), c07Case{Spec: s, Source: src})
+		}
 	}
 	// oracle 1
 	if len(ur.Unused) == 0 {
@@ -643,6 +681,7 @@ func c07RunLoaded(res *vx.Result, st *c07Stats, corpus string, p *packages.Packa
 	}
 	res.Eval(1)
 	st.pkgs.Add(1)
+	st.corpusPkgs.Add(1)
 	st.objects.Add(int64(len(ur.Used) + len(ur.Unused) + len(ur.Quiet)))
 	st.unusedObjs.Add(int64(len(ur.Unused)))
 	st.quietObjs.Add(int64(len(ur.Quiet)))
@@ -715,23 +754,37 @@ func c07RunCorpus(res *vx.Result, st *c07Stats, corpus string, only string) {
 		return
 	}
 	sort.Slice(pkgs, func(i, j int) bool { return pkgs[i].ID < pkgs[j].ID })
-	ran, skipped := 0, 0
-	for _, p := range pkgs {
-		if only != "" && p.ID != only {
-			continue
-		}
-		if res.Expired() {
-			res.NotExhaustive("budget expired inside corpus " + corpus)
-			break
-		}
-		if c07RunLoaded(res, st, corpus, p) {
-			ran++
-		} else {
-			skipped++
-		}
+	var ran, skipped, testMains atomic.Int64
+	var wg sync.WaitGroup
+	var next atomic.Int64
+	for w := 0; w < 4; w++ {
+		wg.Add(1)
+		go func() {
+			defer wg.Done()
+			for {
+				i := int(next.Add(1)) - 1
+				if i >= len(pkgs) {
+					return
+				}
+				p := pkgs[i]
+				if only != "" && p.ID != only {
+					continue
+				}
+				if c07RunLoaded(res, st, corpus, p) {
+					ran.Add(1)
+				} else if strings.HasSuffix(p.ID, ".test") {
+					testMains.Add(1)
+				} else {
+					skipped.Add(1)
+					res.Note("corpus %s: %s skipped (load/type errors: %d, cgo or generated inputs, or no syntax)", corpus, p.ID, len(p.Errors))
+				}
+			}
+		}()
 	}
-	res.Count("corpus_"+corpus+"_packages_checked", int64(ran))
-	res.Count("corpus_"+corpus+"_packages_skipped(errors,cgo,test-main)", int64(skipped))
+	wg.Wait()
+	res.Count("corpus_"+corpus+"_packages_checked", ran.Load())
+	res.Count("corpus_"+corpus+"_packages_skipped(errors,cgo)", skipped.Load())
+	res.Count("corpus_"+corpus+"_synthesized_test_mains_ignored", testMains.Load())
 }
 
 // ---------------------------------------------------------------------------------------------
@@ -743,86 +796,19 @@ func c07Bounds() *vgBounds {
 		b.MaxN = 5
 		b.MaxEdges = []int{0, -1, -1, -1, 3, 2}
 		b.MaxExp = []int{0, 1, 2, 3, 1, 1}
+		b.CoreFrom = 5
 	} else {
 		b.MaxN = 4
-		b.MaxEdges = []int{0, -1, -1, 3, 2}
-		b.MaxExp = []int{0, 1, 2, 3, 1}
+		b.MaxEdges = []int{0, -1, -1, -1, 2}
+		b.MaxExp = []int{0, 1, 2, 1, 1}
+		b.CoreFrom = 4
 	}
 	return b
 }
 
 func c07BoundsText(b *vgBounds) string {
-	return fmt.Sprintf("objects<=%d, edges per size %v (-1 = every subset), exported objects per size <=%v", b.MaxN, b.MaxEdges[1:], b.MaxExp[1:])
-}
-
-// vgRunTasks runs f over every spec of the bounded space with GOMAXPROCS workers, in size order.
-// It returns per-level completion so that a budget stop can be reported precisely.
-func vgRunTasks(res *vx.Result, b *vgBounds, f func(*vgSpec)) (specs, inadm, noncanon int64, completed string) {
-	tasks := vgTasks(b)
-	type lvl struct{ n, k int }
-	total := map[lvl]int{}
-	done := map[lvl]*atomic.Int64{}
-	var levels []lvl
-	for _, t := range tasks {
-		l := lvl{t.N, t.K}
-		if total[l] == 0 {
-			levels = append(levels, l)
-			done[l] = &atomic.Int64{}
-		}
-		total[l]++
-	}
-	var next atomic.Int64
-	var nSpecs, nInadm, nNoncanon atomic.Int64
-	var wg sync.WaitGroup
-	workers := runtime.GOMAXPROCS(0)
-	for w := 0; w < workers; w++ {
-		wg.Add(1)
-		go func() {
-			defer wg.Done()
-			for {
-				i := int(next.Add(1)) - 1
-				if i >= len(tasks) || res.Expired() {
-					return
-				}
-				t := tasks[i]
-				full := true
-				ia, nc := vgExpand(b, t.Sk, t.K, func(s *vgSpec) bool {
-					if res.Expired() {
-						full = false
-						return false
-					}
-					nSpecs.Add(1)
-					f(s)
-					return true
-				})
-				nInadm.Add(ia)
-				nNoncanon.Add(nc)
-				if full {
-					done[lvl{t.N, t.K}].Add(1)
-				}
-			}
-		}()
-	}
-	wg.Wait()
-	var parts []string
-	allDone := true
-	for _, l := range levels {
-		d := int(done[l].Load())
-		if d == total[l] {
-			continue
-		}
-		allDone = false
-		parts = append(parts, fmt.Sprintf("n=%d,e=%d:%d/%d", l.n, l.k, d, total[l]))
-	}
-	if allDone {
-		completed = "all levels complete"
-	} else {
-		if len(parts) > 12 {
-			parts = append(parts[:12], "...")
-		}
-		completed = "incomplete levels (skeleton tasks done/total): " + strings.Join(parts, " ")
-	}
-	return nSpecs.Load(), nInadm.Load(), nNoncanon.Load(), completed
+	return fmt.Sprintf("objects<=%d; edges per package size %v (-1 = every subset, one form per ordered pair); exported objects per size <=%v; all %d reference forms below %d objects, the %d core forms from there on",
+		b.MaxN, b.MaxEdges[1:], b.MaxExp[1:], int(vfNumForms), b.CoreFrom, int(vfNumForms)-8)
 }
 
 // ---------------------------------------------------------------------------------------------
@@ -846,37 +832,44 @@ func TestVerifC07(t *testing.T) {
 		return
 	}
 
+	debug.SetGCPercent(800) // tiny short-lived packages: the collector would otherwise take half of the CPU
 	res.SetBudget(vx.Budget(100*time.Second, 17*time.Minute))
 	cpu0 := vgCPU()
 	b := c07Bounds()
 	var sampleN atomic.Int64
+	part := os.Getenv("VERIF_C07_PART") // development aid: "gen" or "corpora"; empty = everything
+	if part == "corpora" {
+		b.MaxN = 1
+	}
+	// The corpora spend most of their time in `go list`; they run beside the generated family.
+	var corporaDone sync.WaitGroup
+	if part != "gen" {
+		corporaDone.Add(1)
+		go func() {
+			defer corporaDone.Done()
+			for _, corpus := range []string{"testdata", "repo"} {
+				c07RunCorpus(res, st, corpus, "")
+			}
+		}()
+	}
 	specs, inadm, noncanon, completed := vgRunTasks(res, b, func(s *vgSpec) {
 		c07RunSpec(res, st, s)
 		if n := sampleN.Add(1); n%200003 == 7 || n == 5000 {
 			res.Sample(map[string]any{"key": s.Key(), "source": vgFileText("p", s.Render(nil))})
 		}
 	})
-	genCPU := vgCPU() - cpu0
 	res.Count("generated_packages", specs)
 	res.Count("generated_edge_sets_inadmissible", inadm)
 	res.Count("generated_edge_sets_noncanonical(renaming)", noncanon)
-	res.Count("generated_cpu_seconds", int64(genCPU.Seconds()))
 	res.Bound = c07BoundsText(b) + "; " + completed
 	if res.Expired() {
 		res.NotExhaustive("time budget reached in the generated family: " + completed)
 	}
-	genPkgs := st.pkgs.Load()
-
-	cpu1 := vgCPU()
-	for _, corpus := range []string{"testdata", "repo"} {
-		if res.Expired() {
-			res.NotExhaustive("time budget reached before corpus " + corpus)
-			break
-		}
-		c07RunCorpus(res, st, corpus, "")
-	}
-	res.Count("corpora_cpu_seconds", int64((vgCPU() - cpu1).Seconds()))
-	res.Count("corpus_package_variants", st.pkgs.Load()-genPkgs)
+	corporaDone.Wait()
+	corpusPkgs := st.corpusPkgs.Load()
+	genCPU := vgCPU() - cpu0
+	res.Count("cpu_seconds_in_process(generated+corpora,without_go_list)", int64(genCPU.Seconds()))
+	res.Count("corpus_package_variants", corpusPkgs)
 	res.Count("objects_decided", st.objects.Load())
 	res.Count("objects_reported_unused", st.unusedObjs.Load())
 	res.Count("objects_quiet", st.quietObjs.Load())
@@ -886,7 +879,7 @@ func TestVerifC07(t *testing.T) {
 	res.States = st.pkgs.Load()
 	res.Transitions = st.objects.Load()
 	res.Validated = st.deletions.Load()
-	res.Sample(map[string]any{"corpus": "repo+testdata", "package_variants": st.pkgs.Load() - genPkgs})
-	t.Logf("C07: %d generated packages (%d inadmissible, %d non-canonical edge sets), %d corpus variants, %d deletions, gen cpu %v; %s",
-		specs, inadm, noncanon, st.pkgs.Load()-genPkgs, st.deletions.Load(), genCPU, completed)
+	res.Sample(map[string]any{"corpus": "repo+testdata", "package_variants": corpusPkgs})
+	t.Logf("C07: %d generated packages (%d inadmissible, %d non-canonical edge sets), %d corpus variants, %d deletions, cpu %v; %s",
+		specs, inadm, noncanon, corpusPkgs, st.deletions.Load(), genCPU, completed)
 }
